@@ -13,6 +13,7 @@ import Larking.Model.Param
 import Larking.Model.Registry
 import Larking.Model.Events
 import Larking.Model.Proxy
+import Larking.Model.Mount
 import Larking.Gen.Params
 import Larking.Gen.Lexer
 namespace Larking.Driver
@@ -454,8 +455,20 @@ def handleProxy : List String → Option String
             toString seen.clientGot.length ++ "," ++ st)
   | _ => none
 
+/-! ### C20: mounts -/
+
+def handleMount : List String → Option String
+  | ["mount", patterns, extras, path] =>
+      let ps := if patterns == "-" then [] else (patterns.splitOn ";").map String.toList
+      let es := if extras == "-" then [] else (extras.splitOn ";").map String.toList
+      some (match Mount.serve (Mount.table false true ps es) path.toList with
+        | .byMux seen => "mux:" ++ String.ofList seen
+        | .byExtra i => "extra:" ++ toString i
+        | .notFound => "none")
+  | _ => none
+
 def handlers : List (List String → Option String) :=
-  [handleC05, handleC14C15, handleC17, handleC19, handleC04, handleRouting, handleStreams, handleParams, handleRegistry, handleEvents, handleProxy]
+  [handleC05, handleC14C15, handleC17, handleC19, handleC04, handleRouting, handleStreams, handleParams, handleRegistry, handleEvents, handleProxy, handleMount]
 
 def handle (args : List String) : String :=
   match handlers.findSome? (fun h => h args) with
